@@ -441,8 +441,12 @@ static void chain_body(void *arg)
             }
         }
         sw_arg a = { prim, (t >= 0 && prim != P_CREATE_TO) ? B.C[t].th : ABT_THREAD_NULL, t, ABT_SUCCESS };
-        if (prim == P_REVIVE_TO)
+        if (prim == P_REVIVE_TO) {
             B.C[t].budget = 1 + (int)sim_rand_n(SIM_RS_CHAOS, 3);
+            /* with lazy stack allocation the new incarnation gets another stack (and the old one
+             * may serve somebody else by now): its range is learnt when it runs */
+            B.C[t].lo = B.C[t].hi = NULL;
+        }
         if (t >= 0) {
             cult *tg = &B.C[t];
             int rank = -1;
